@@ -1,8 +1,613 @@
 import Got.Drv.Common
-/- driver for the cache model family (properties C04, C05, C06): to be written -/
+import Got.Model.Cache
+import Got.Model.Sharding
+/-
+drv_cache (monitor mode): every input line is  `<script line>\t<observation line of the harness>`; the answer is
+`ok …` or `reject <why>`.
+
+script:       cfg P=1 J=1 En=2000000 Ee=1000000 | at 0 load c0 k=i:1 loader=dur:3000000,val:7 ; at 5 get2 c1 k=i:1 ;
+              at 7 set c2 k=i:1 val:5 ; at 9 fget c3 of=c0
+observation:  S=16 | 0 call c0 | 0 ret c0 fut#0 | 0 lstart c0 k=i:1 #0 | 3000000 lend #0 7 nil | 9 ret c3 7 nil | end 12
+pure lines:   shard <count> <key>  ⟶  idx <n>          cpo2 <n>  ⟶  r <n> | diverge
+
+The monitor tracks the set of states of the LTS `Got.Model.Cache` that are consistent with the events seen so far
+(trace inclusion): between two observed events every interleaving of the unobserved steps that matter is explored;
+steps that commute with everything else (Unlock, wg.Done, receiving a job or a tick, the sweep — invisible by
+C05_sweep_invisible) are executed eagerly in a fixed order.  Virtual time may only advance from a state in which
+no step is enabled (maximal progress = semantics of the Go runtime's fake clock).
+-/
 namespace Got.Drv.Cache
+open Got.Model.Cache Got.Model.CacheCore Got.Model.Sharding Got.Drv
+
+def dropChars (n : Nat) (s : String) : String := String.ofList (s.toList.drop n)
+
+/-- "c12" ↦ 12 -/
+def parseCid? (s : String) : Option Nat :=
+  if s.startsWith "c" then (dropChars 1 s).toNat? else none
+
+def parseKey? (s : String) : Option TKey :=
+  match s.splitOn ":" with
+  | [ty, v] =>
+    match ty with
+    | "i" => v.toInt?.map .int
+    | "i8" => v.toInt?.map .int8
+    | "i16" => v.toInt?.map .int16
+    | "i32" => v.toInt?.map .int32
+    | "i64" => v.toInt?.map .int64
+    | "u8" => v.toNat?.map .uint8
+    | "u16" => v.toNat?.map .uint16
+    | "u32" => v.toNat?.map .uint32
+    | "u64" => v.toNat?.map .uint64
+    | "s" => (parseHex? v).map .str
+    | _ => none
+  | _ => none
+
+/-- "val:7,err:3" / "val:7" / "err:3" / "nil" (parts in any order, unknown parts ignored by the caller) -/
+def parseResParts (parts : List String) : Res :=
+  parts.foldl (fun r p =>
+    match p.splitOn ":" with
+    | ["val", v] => { r with val := v.toNat? }
+    | ["err", e] => { r with err := e.toNat? }
+    | _ => r) { val := none, err := none }
+
+def showRes (r : Res) : String :=
+  (match r.val with | some v => toString v | none => "nil") ++ " " ++
+  (match r.err with | some e => "e" ++ toString e | none => "nil")
+
+inductive Op
+  | load (k : Nat) (dur : Nat) (r : Res)
+  | get2 (k : Nat)
+  | set (k : Nat) (r : Res)
+  | fget (o : Nat)
+
+structure Call where
+  at_ : Nat
+  cid : Nat
+  op : Op
+
+structure Scen where
+  P : Nat
+  J : Nat
+  En : Nat
+  Ee : Nat
+  calls : List Call
+  keys : List String      -- key id = position
+
+def kvOf (pref : String) (ws : List String) : Option String :=
+  ws.findSome? (fun w => if w.startsWith pref then some (dropChars pref.length w) else none)
+
+def keyId (keys : List String) (k : String) : List String × Nat :=
+  match keys.idxOf? k with
+  | some i => (keys, i)
+  | none => (keys ++ [k], keys.length)
+
+def parseCall (keys : List String) (seg : String) : Option (List String × Call) :=
+  match words seg with
+  | "at" :: t :: kind :: c :: rest =>
+    match t.toNat?, parseCid? c with
+    | some t, some c =>
+      match kind with
+      | "load" =>
+        match kvOf "k=" rest, kvOf "loader=" rest with
+        | some k, some l =>
+          let parts := l.splitOn ","
+          let dur := (parts.findSome? (fun p => match p.splitOn ":" with | ["dur", d] => d.toNat? | _ => none)).getD 0
+          let (keys, kid) := keyId keys k
+          some (keys, { at_ := t, cid := c, op := .load kid dur (parseResParts parts) })
+        | _, _ => none
+      | "get2" =>
+        match kvOf "k=" rest with
+        | some k => let (keys, kid) := keyId keys k; some (keys, { at_ := t, cid := c, op := .get2 kid })
+        | none => none
+      | "set" =>
+        match kvOf "k=" rest with
+        | some k =>
+          let (keys, kid) := keyId keys k
+          let parts := (rest.filter (fun w => !(w.startsWith "k="))).flatMap (·.splitOn ",")
+          some (keys, { at_ := t, cid := c, op := .set kid (parseResParts parts) })
+        | none => none
+      | "fget" =>
+        match (kvOf "of=" rest).bind parseCid? with
+        | some o => some (keys, { at_ := t, cid := c, op := .fget o })
+        | none => none
+      | _ => none
+    | _, _ => none
+  | _ => none
+
+def parseScen (line : String) : Option Scen :=
+  match line.splitOn " | " with
+  | [head, body] =>
+    let hw := words head
+    match hw.head?, (kvOf "P=" hw).bind (·.toNat?), (kvOf "J=" hw).bind (·.toNat?),
+          (kvOf "En=" hw).bind (·.toNat?), (kvOf "Ee=" hw).bind (·.toNat?) with
+    | some "cfg", some p, some j, some en, some ee =>
+      let segs := (body.splitOn " ; ").filter (fun s => !(words s).isEmpty)
+      let r := segs.foldl (fun acc seg =>
+        match acc with
+        | none => none
+        | some (keys, calls) =>
+          match parseCall keys seg with
+          | some (keys, c) => some (keys, calls ++ [c])
+          | none => none) (some ([], []))
+      r.map (fun (keys, calls) => { P := p, J := j, En := en, Ee := ee, calls := calls, keys := keys })
+    | _, _, _, _, _ => none
+  | _ => none
+
+inductive Ev
+  | call (c : Nat)
+  | retFut (c : Nat) (n : Nat)
+  | retPair (c : Nat) (shown : String)
+  | retSet (c : Nat)
+  | lstart (ld : Nat) (key : String) (n : Nat)
+  | lend (n : Nat) (shown : String)
+  | fin
+  | hang (who : String)
+  | bad (s : String)
+
+def parseHashNat? (s : String) : Option Nat :=
+  if s.startsWith "#" then (dropChars 1 s).toNat? else none
+
+def parseEv (seg : String) : Nat × Ev :=
+  match words seg with
+  | ["end", t] => (t.toNat?.getD 0, .fin)
+  | "hang" :: t :: rest => (t.toNat?.getD 0, .hang (joinSp rest))
+  | [t, "call", c] =>
+    match t.toNat?, parseCid? c with
+    | some t, some c => (t, .call c)
+    | _, _ => (0, .bad seg)
+  | [t, "ret", c, x] =>
+    match t.toNat?, parseCid? c with
+    | some t, some c =>
+      if x = "set" then (t, .retSet c)
+      else if x.startsWith "fut#" then
+        match (dropChars 4 x).toNat? with
+        | some n => (t, .retFut c n)
+        | none => (0, .bad seg)
+      else (0, .bad seg)
+    | _, _ => (0, .bad seg)
+  | [t, "ret", c, v, e] =>
+    match t.toNat?, parseCid? c with
+    | some t, some c => (t, .retPair c (v ++ " " ++ e))
+    | _, _ => (0, .bad seg)
+  | [t, "lstart", c, k, n] =>
+    match t.toNat?, parseCid? c, parseHashNat? n with
+    | some t, some c, some n => (t, .lstart c (dropChars 2 k) n)
+    | _, _, _ => (0, .bad seg)
+  | [t, "lend", n, v, e] =>
+    match t.toNat?, parseHashNat? n with
+    | some t, some n => (t, .lend n (v ++ " " ++ e))
+    | _, _ => (0, .bad seg)
+  | _ => (0, .bad seg)
+
+/-! ### monitor state -/
+
+structure Env where
+  cfg : Cfg
+  sc : Scen
+  tickEvery : Nat
+  maxCid : Nat
+
+structure M where
+  s : State
+  seen : List FutId                  -- observation number ↦ model future
+  nextTick : Nat
+  invs : List (Wid × Nat × Nat)      -- loader invocation number ↦ (worker, start time, loader id)
+  active : List Cid                  -- invoked and not yet returned
+
+def callOf (env : Env) (c : Nat) : Option Call := env.sc.calls.find? (·.cid = c)
+
+def showOptNat : Option Nat → String
+  | none => "-"
+  | some n => toString n
+
+def showJob (j : Job) : String := s!"{j.key},{j.fut},{j.ld}"
+
+def showPlan : Plan → String
+  | .ret f => s!"r{f}"
+  | .fetch f => s!"f{f}"
+
+def showCPc : CPc → String
+  | .idle => "i"
+  | .ldStart k ld => s!"ls {k} {ld}"
+  | .ldUnlock sh send plan => s!"lu {sh} {(send.map showJob).getD "-"} {showPlan plan}"
+  | .ldSend j plan lk => s!"lS {showJob j} {showPlan plan} {showOptNat lk}"
+  | .fetch f g => s!"fe {f} {g}"
+  | .fetchSt f p g => s!"fs {f} {showOptNat p} {g}"
+  | .ldRet f => s!"lr {f}"
+  | .g2Start k => s!"gs {k}"
+  | .g2Status f => s!"gt {showOptNat f}"
+  | .wait f => s!"w {f}"
+  | .retNil => "rn"
+  | .setStart k r => s!"ss {k} {showRes r}"
+  | .setRet => "sr"
+  | .done _ => "d"
+
+def showWPc : WPc → String
+  | .idle => "i"
+  | .got j => s!"g {showJob j}"
+  | .running j => s!"r {showJob j}"
+  | .publish j r => s!"p {showJob j} {showRes r}"
+  | .clearPred j => s!"c {showJob j}"
+  | .wgDone j => s!"d {showJob j}"
+  | .sweep i => s!"s {i}"
+
+def showFut (f : Fut) : String :=
+  s!"{f.key} {(f.res.map showRes).getD "-"} {f.upd} {showOptNat f.pred} {f.done}"
+
+/-- canonical rendering of the non-ghost part on the finite id sets of the scenario (state de-duplication) -/
+def renderM (env : Env) (m : M) : String :=
+  let s := m.s
+  let cs := m.active.map (fun c => s!"{c}:{showCPc (s.cpc c)}")
+  let ws := (List.range env.cfg.P).map (fun w => showWPc (s.wpc w))
+  let fs := (List.range s.nfut).map (fun f => showFut (s.fut f))
+  let ms := (List.range env.sc.keys.length).map (fun k => showOptNat (s.map k))
+  let ls := (List.range env.cfg.S).filterMap (fun i => (s.lock i).map (fun c => s!"{i}>{c}"))
+  "|".intercalate [toString s.now, toString s.tickPending, toString m.nextTick,
+    ",".intercalate cs, ",".intercalate ws, ";".intercalate fs, ",".intercalate ms, ",".intercalate ls,
+    ",".intercalate (s.chan.map showJob), ",".intercalate (m.seen.map toString),
+    ",".intercalate (m.invs.map (fun (w, t, l) => s!"{w}.{t}.{l}"))]
+
+def tabOf {β : Type} (arr : Array β) (dflt : β) (i : Nat) : β := arr.getD i dflt
+
+/-- replace the function-typed fields by extensionally equal table look-ups (keeps closure chains short).
+    The arrays are built here, strictly, and captured by the partial applications of `tabOf`. -/
+def compact (env : Env) (m : M) : M :=
+  let s := m.s
+  let aLock := (Array.range env.cfg.S).map s.lock
+  let aMap := (Array.range env.sc.keys.length).map s.map
+  let aFut := (Array.range s.nfut).map s.fut
+  let aCpc := (Array.range (env.maxCid + 1)).map s.cpc
+  let aWpc := (Array.range env.cfg.P).map s.wpc
+  let aJob := (Array.range s.nfut).map s.jobAt
+  let s' : State :=
+    { s with
+      lock := tabOf aLock none
+      map := tabOf aMap none
+      fut := tabOf aFut emptyFut
+      cpc := tabOf aCpc .idle
+      wpc := tabOf aWpc .idle
+      jobAt := tabOf aJob .nowhere }
+  { m with s := s' }
+
+def isRetPc (s : State) : CPc → Bool
+  | .ldRet _ | .retNil | .setRet => true
+  | .wait f => (s.fut f).done
+  | _ => false
+
+/-- unobserved client steps whose order relative to other steps matters -/
+def isBranchPc : CPc → Bool
+  | .ldStart _ _ | .ldSend _ _ _ | .fetch _ _ | .fetchSt _ _ _ | .g2Start _ | .g2Status _ | .setStart _ _ => true
+  | _ => false
+
+def firstSome {α β : Type} (xs : List α) (f : α → Option β) : Option β := xs.findSome? f
+
+/-- one eager step (commutes with / is invisible to everything else), in a fixed priority order -/
+def eagerOnce (env : Env) (m : M) : Option M :=
+  let cfg := env.cfg
+  let s := m.s
+  let ws := List.range cfg.P
+  -- Unlock
+  (firstSome m.active (fun c =>
+    match s.cpc c with
+    | .ldUnlock _ _ _ => (clStep cfg s c).map (fun s' => { m with s := s' })
+    | _ => none)).orElse fun _ =>
+  -- wg.Done
+  (firstSome ws (fun w =>
+    match s.wpc w with
+    | .wgDone _ => (wkStep cfg s w).map (fun s' => { m with s := s' })
+    | _ => none)).orElse fun _ =>
+  -- the ticker
+  (if env.tickEvery > 0 && s.now ≥ m.nextTick then
+    (step? cfg s .tick).map (fun s' => { m with s := s', nextTick := m.nextTick + env.tickEvery })
+   else none).orElse fun _ =>
+  -- a worker in the select: job, else tick
+  (firstSome ws (fun w => (step? cfg s (.wTake w)).map (fun s' => { m with s := s' }))).orElse fun _ =>
+  (firstSome ws (fun w => (step? cfg s (.wTick w)).map (fun s' => { m with s := s' }))).orElse fun _ =>
+  -- the sweep
+  (firstSome ws (fun w =>
+    match s.wpc w with
+    | .sweep _ => (wkStep cfg s w).map (fun s' => { m with s := s' })
+    | _ => none))
+
+def normalize (env : Env) : Nat → M → M
+  | 0, m => m
+  | fuel + 1, m =>
+    match eagerOnce env m with
+    | some m' => normalize env fuel m'
+    | none => m
+
+def normFuel : Nat := 100000
+
+/-- successors by one branching internal step (normalised) -/
+def branchSteps (env : Env) (m : M) : List M :=
+  let cfg := env.cfg
+  let s := m.s
+  let cs := m.active.filterMap (fun c =>
+    if isBranchPc (s.cpc c) then (clStep cfg s c).map (fun s' => normalize env normFuel { m with s := s' }) else none)
+  let ws := (List.range cfg.P).filterMap (fun w =>
+    match s.wpc w with
+    | .publish _ _ | .clearPred _ => (wkStep cfg s w).map (fun s' => normalize env normFuel { m with s := s' })
+    | _ => none)
+  cs ++ ws
+
+abbrev MSet := List (String × M)
+
+def insertM (env : Env) (set : MSet) (m : M) : MSet × Bool :=
+  let key := renderM env m
+  if set.any (fun (k, _) => k == key) then (set, false) else (set ++ [(key, m)], true)
+
+/-- all states reachable by unobserved steps (breadth first, de-duplicated) -/
+def closure (env : Env) (start : List M) : MSet :=
+  let rec go (fuel : Nat) (set : MSet) (frontier : List M) : MSet :=
+    match fuel, frontier with
+    | 0, _ => set
+    | _, [] => set
+    | fuel + 1, m :: rest =>
+      let succs := branchSteps env m
+      let (set, newOnes) := succs.foldl (fun (acc : MSet × List M) m' =>
+        let (set', isNew) := insertM env acc.1 m'
+        (set', if isNew then acc.2 ++ [m'] else acc.2)) (set, [])
+      go fuel set (rest ++ newOnes)
+  let (set0, fr0) := start.foldl (fun (acc : MSet × List M) m =>
+    let (set', isNew) := insertM env acc.1 m
+    (set', if isNew then acc.2 ++ [m] else acc.2)) ([], [])
+  go 200000 set0 fr0
+
+/-- is a step enabled that the fake clock would wait for? -/
+def urgent (env : Env) (m : M) : Option String :=
+  let s := m.s
+  (firstSome m.active (fun c =>
+    let pc := s.cpc c
+    if isRetPc s pc then some s!"c{c} can return"
+    else if isBranchPc pc && (clStep env.cfg s c).isSome then some s!"c{c} can step ({showCPc pc})"
+    else none)).orElse fun _ =>
+  firstSome (List.range env.cfg.P) (fun w =>
+    match s.wpc w with
+    | .got _ => some s!"worker {w} is about to call the loader"
+    | .publish _ _ | .clearPred _ => some s!"worker {w} is inside setValue"
+    | _ => none)
+
+/-- timers that must not be skipped when time advances to t -/
+def overdue (env : Env) (m : M) (t : Nat) : Option String :=
+  (firstSome env.sc.calls (fun c =>
+    match m.s.cpc c.cid, c.op with
+    | .idle, .fget o =>
+      (match m.s.cpc o with
+       | .done _ => if c.at_ < t then some s!"call c{c.cid} (Future.Get2 of c{o}) was never issued" else none
+       | _ => none)
+    | .idle, _ => if c.at_ < t then some s!"call c{c.cid} scheduled at {c.at_} was never issued" else none
+    | _, _ => none)).orElse fun _ =>
+  firstSome m.invs (fun (w, t0, ld) =>
+    match m.s.wpc w, callOf env ld with
+    | .running j, some { op := .load _ dur _, .. } =>
+      if j.ld = ld && t0 + dur < t then some s!"loader of c{ld} started at {t0} did not end at {t0 + dur}" else none
+    | _, _ => none)
+
+/-- advance the clock of a quiescent state to t, firing the ticks that fall strictly before t on the way -/
+def advance (env : Env) (t : Nat) : Nat → M → M
+  | 0, m => m
+  | fuel + 1, m =>
+    if env.tickEvery > 0 && m.nextTick < t then
+      let d := m.nextTick - m.s.now
+      let s' := step env.cfg m.s (.delay d)
+      advance env t fuel (normalize env normFuel { m with s := s' })
+    else
+      let s' := step env.cfg m.s (.delay (t - m.s.now))
+      normalize env normFuel (compact env { m with s := s' })
+
+def showOut : Out → String
+  | .fut f => s!"fut{f}"
+  | .pair _ none => "nil nil"
+  | .pair _ (some r) => showRes r
+  | .unit => "set"
+
+def applyEv (env : Env) (m : M) : Ev → Except String M
+  | .call c =>
+    match callOf env c with
+    | none => .error s!"c{c} is not in the script"
+    | some call =>
+      let timeOk := match call.op with
+        | .fget _ => call.at_ ≤ m.s.now      -- issued at its instant or as soon as its Load has returned
+        | _ => call.at_ = m.s.now
+      if !timeOk then .error s!"c{c} issued at {m.s.now}, scripted at {call.at_}" else
+      let act : Act :=
+        match call.op with
+        | .load k _ _ => .invLoad c k c
+        | .get2 k => .invGet2 c k
+        | .set k r => .invSet c k r
+        | .fget o => .invFGet c o
+      match step? env.cfg m.s act with
+      | some s' => .ok { m with s := s', active := m.active ++ [c] }
+      | none => .error s!"c{c} cannot be invoked (already invoked, or Future.Get2 on a Load that has not returned in the model)"
+  | .retFut c n =>
+    match m.s.cpc c with
+    | .ldRet f =>
+      match clStep env.cfg m.s c with
+      | some s' =>
+        let m' := { m with s := s', active := m.active.filter (· ≠ c) }
+        if h : n < m.seen.length then
+          if m.seen[n] = f then .ok m' else .error s!"Load c{c} returned future #{n}, model returns another future (model id {f})"
+        else if n = m.seen.length then
+          if m.seen.contains f then .error s!"Load c{c} returned a new future, model returns the already seen #{(m.seen.idxOf? f).getD 0}"
+          else .ok { m' with seen := m.seen ++ [f] }
+        else .error s!"future number {n} skips"
+      | none => .error "internal: ldRet not enabled"
+    | pc => .error s!"Load c{c} returned but the model client is at {showCPc pc}"
+  | .retPair c shown =>
+    let pc := m.s.cpc c
+    if isRetPc m.s pc then
+      match clStep env.cfg m.s c with
+      | some s' =>
+        match s'.cpc c with
+        | .done (.pair f r) =>
+          if showOut (.pair f r) = shown then .ok { m with s := s', active := m.active.filter (· ≠ c) }
+          else .error s!"c{c} returned ({shown}), model returns ({showOut (.pair f r)})"
+        | _ => .error s!"c{c} returned a pair, model call returns something else"
+      | none => .error "internal: return not enabled"
+    else .error s!"c{c} returned ({shown}) but the model client is at {showCPc pc}"
+  | .retSet c =>
+    match m.s.cpc c with
+    | .setRet =>
+      match clStep env.cfg m.s c with
+      | some s' => .ok { m with s := s', active := m.active.filter (· ≠ c) }
+      | none => .error "internal: setRet not enabled"
+    | pc => .error s!"Set c{c} returned but the model client is at {showCPc pc}"
+  | .lstart ld key n =>
+    if n ≠ m.invs.length then .error s!"loader invocation number {n} out of order" else
+    let cand := (List.range env.cfg.P).findSome? (fun w =>
+      match m.s.wpc w with
+      | .got j => if j.ld = ld then some (w, j) else none
+      | _ => none)
+    match cand with
+    | none => .error s!"loader of c{ld} started, but no model worker holds a job of that Load"
+    | some (w, j) =>
+      if env.sc.keys[j.key]? ≠ some key then
+        .error s!"loader of c{ld} was called with key {key}, model passes {(env.sc.keys[j.key]?).getD "?"}"
+      else
+        match step? env.cfg m.s (.wStart w) with
+        | some s' => .ok { m with s := s', invs := m.invs ++ [(w, m.s.now, ld)] }
+        | none => .error "internal: wStart not enabled"
+  | .lend n shown =>
+    match m.invs[n]? with
+    | none => .error s!"loader invocation {n} unknown"
+    | some (w, t0, ld) =>
+      match callOf env ld with
+      | some { op := .load _ dur r, .. } =>
+        if t0 + dur ≠ m.s.now then .error s!"loader #{n} ended at {m.s.now}, scripted end {t0 + dur}"
+        else if showRes r ≠ shown then .error s!"loader #{n} returned ({shown}), scripted ({showRes r})"
+        else
+          match m.s.wpc w with
+          | .running j =>
+            if j.ld = ld then
+              match step? env.cfg m.s (.wEnd w r) with
+              | some s' => .ok { m with s := s' }
+              | none => .error "internal: wEnd not enabled"
+            else .error s!"loader #{n}: model worker runs another job"
+          | _ => .error s!"loader #{n} ended but the model worker is not running it"
+      | _ => .error s!"loader #{n}: c{ld} is not a Load"
+  | .fin => .ok m
+  | .hang who => .error s!"calls still blocked at the end of the scenario: {who}"
+  | .bad seg => .error s!"unparsable event '{seg}'"
+
+def allDone (env : Env) (m : M) : Option String :=
+  (firstSome env.sc.calls (fun c =>
+    match m.s.cpc c.cid with
+    | .done _ => none
+    | pc => some s!"c{c.cid} has not returned in the model ({showCPc pc})")).orElse fun _ =>
+  (firstSome (List.range env.cfg.P) (fun w =>
+    match m.s.wpc w with
+    | .idle => none
+    | pc => some s!"worker {w} not idle ({showWPc pc})")).orElse fun _ =>
+  (firstSome (List.range m.s.nfut) (fun f =>
+    if (m.s.fut f).done then none else some s!"future {f} unresolved"))
+
+structure Acc where
+  set : List M
+  err : Option String
+  maxSet : Nat
+  nev : Nat
+
+def processEvent (env : Env) (acc : Acc) (tev : Nat × Ev) : Acc :=
+  match acc.err with
+  | some _ => acc
+  | none =>
+    let (t, ev) := tev
+    let fail (why : String) : Acc := { acc with err := some s!"event {acc.nev}: {why}" }
+    match acc.set with
+    | [] => fail "no model state"
+    | m0 :: _ =>
+      let now := m0.s.now
+      match ev with
+      | .fin =>
+        -- end of the observation: some tracked state (after the remaining unobserved steps) must be completely finished
+        let cl := (closure env acc.set).map (·.2)
+        match cl.find? (fun m => (allDone env m).isNone && (urgent env m).isNone) with
+        | some m => { acc with set := [m], nev := acc.nev + 1, maxSet := max acc.maxSet cl.length }
+        | none =>
+          let why := (cl.head?.bind (fun m => (allDone env m).orElse fun _ => urgent env m)).getD "?"
+          fail s!"scenario ended but in the model {why}"
+      | _ =>
+      if t < now then fail s!"time goes backwards ({t} < {now})" else
+      -- 1. advance virtual time
+      let stepTime : Except String (List M) :=
+        if t = now then .ok acc.set else
+          let cl := (closure env acc.set).map (·.2)
+          let quiet := cl.filter (fun m => (urgent env m).isNone && (overdue env m t).isNone)
+          match quiet with
+          | [] =>
+            let why := (cl.head?.bind (fun m => (urgent env m).orElse fun _ => overdue env m t)).getD "?"
+            .error s!"virtual time advanced from {now} to {t} although {why}"
+          | _ => .ok (quiet.map (advance env t 1000000))
+      match stepTime with
+      | .error e => fail e
+      | .ok set1 =>
+        -- 2. unobserved steps, 3. the observed event
+        let cl := (closure env set1).map (·.2)
+        let res := cl.map (fun m => applyEv env m ev)
+        let oks := res.filterMap (fun r => match r with | .ok m => some (normalize env normFuel m) | .error _ => none)
+        match oks with
+        | [] =>
+          let why := (res.findSome? (fun r => match r with | .error e => some e | .ok _ => none)).getD "?"
+          fail s!"t={t}: {why}"
+        | _ =>
+          -- de-duplicate
+          let keys := oks.map (renderM env)
+          let ded := (oks.zip keys).foldl (fun (acc : List (String × M)) (m, k) =>
+            if acc.any (fun (k', _) => k' == k) then acc else acc ++ [(k, m)]) []
+          { acc with set := ded.map (·.2), nev := acc.nev + 1, maxSet := max acc.maxSet cl.length }
+
+def shardOfKeys (S : Nat) (keys : List String) : Nat → Nat :=
+  let arr := keys.toArray.map (fun k => match parseKey? k with | some tk => (shardIndex S tk).toNat | none => 0)
+  fun k => arr.getD k 0
+
+def monitorScen (script impl : String) : String :=
+  match parseScen script with
+  | none => "reject unparsable script"
+  | some sc =>
+    match impl.splitOn " | " with
+    | [] => "reject empty observation"
+    | head :: evs =>
+      match (kvOf "S=" (words head)).bind (·.toNat?) with
+      | none => s!"reject observation has no S= header: {head}"
+      | some S =>
+        let cfg : Cfg := { P := sc.P, J := sc.J, S := S, En := sc.En, Ee := sc.Ee, shardOf := shardOfKeys S sc.keys }
+        let maxCid := sc.calls.foldl (fun a c => max a c.cid) 0
+        let env : Env := { cfg := cfg, sc := sc, tickEvery := tickFactor * sc.En, maxCid := maxCid }
+        let m0 : M := { s := init, seen := [], nextTick := env.tickEvery, invs := [], active := [] }
+        let evl := evs.map parseEv
+        let evl := if evl.any (fun (_, e) => match e with | .fin => true | .hang _ => true | _ => false) then evl
+                   else evl ++ [(0, Ev.bad "observation has no end marker")]
+        let acc := evl.foldl (processEvent env) { set := [m0], err := none, maxSet := 1, nev := 0 }
+        match acc.err with
+        | some e => "reject " ++ e
+        | none => s!"ok events={acc.nev} maxset={acc.maxSet}"
+
+def monitorLine (line : String) : String :=
+  match line.splitOn "\t" with
+  | [script, impl] =>
+    match words script with
+    | ["shard", count, key] =>
+      match count.toNat?, parseKey? key with
+      | some c, some k =>
+        let want := s!"idx {shardIndex c k}"
+        if impl = want then "ok" else s!"reject model: {want}"
+      | _, _ => "reject unparsable shard line"
+    | ["cpo2", n] =>
+      match n.toInt? with
+      | some n =>
+        let want := match convertPowerOfTwo n with | some r => s!"r {r}" | none => "diverge"
+        if impl = want then "ok" else s!"reject model: {want}"
+      | none => "reject unparsable cpo2 line"
+    | "cfg" :: _ => monitorScen script impl
+    | ["procs", _] => if impl = "ok" then "ok" else "reject procs"
+    | "stress" :: _ =>
+      -- real goroutines racing on one key: by C04_no_second_load / C04_one_live_loader the model never duplicates a load
+      if impl = "dup 0" then "ok" else s!"reject model: dup 0"
+    | [] => ""
+    | _ => "reject unknown script line"
+  | _ => "reject malformed monitor input (expected script<TAB>observation)"
 
 def main (_args : List String) : IO Unit := do
-  IO.eprintln "drv_cache: not implemented"
+  lineLoop (← IO.getStdin) (← IO.getStdout) (fun (_ : Unit) l => ((), monitorLine l)) ()
 
 end Got.Drv.Cache
